@@ -105,7 +105,8 @@ def scalar_inputs(rnd, n):
     texts = ["5", "0", "-3", "1.5", "0.001", "1e-9", "1E+3", "2.50", "abc", "w/5", "3*x", "1e", "", "0x10", ".5", "5.", "-.5e-3", "+7"]
     for t in texts:
         out.append((t, desc("toscalar", b=B(t))))
-    for v in [5, 0, -7, 2 ** 40, 0.1, 1e-3, 2.5, 1e22, 1 / 3]:
+    # (whole-valued floats beyond 2**53 whose binary value is not the decimal their repr shows: the Scalar is the repr's decimal, not int(v))
+    for v in [5, 0, -7, 2 ** 40, 0.1, 1e-3, 2.5, 1e22, 1 / 3, 1e23, -1e23, 1.2345678901234568e18, 2.0 ** 70, 1e16, 123456789.0]:
         out.append((v, desc("toscalar", b=B(repr(v)))))
     for d in ["2.50", "1E+3", "0.000001", "1.234567890123456789012345", "123456789012345678901234", "0.999999999999999999999999", "-9007199254740993"]:   # (more digits than a float holds)
         out.append((Decimal(d), desc("toscalar", b=B(d))))
